@@ -48,6 +48,9 @@ inline void subdivide(Rng& r, Path64& p) {
     int64_t g = gcd64(b.x - a.x, b.y - a.y); if (g < 2) continue; int64_t k = r.range(1, g - 1);
     p.insert(p.begin() + i + 1, Point64(a.x + (b.x - a.x) / g * k, a.y + (b.y - a.y) / g * k)); return; }
 }
+// gp_filter_t: clearance demanded by the native general-position pre-filter; 0 = no filter (arbitrary random polygons, only
+// clauses that need no input certificate are judged: BoolTrace "loose" cases)
+inline int& gp_filter_t() { static int t = 3; return t; }
 inline bool gen_gps(Rng& r, int R, int maxpaths, int maxv, Paths64& S, Paths64& C) {
   for (int tries = 0; tries < 4000; ++tries) {
     S.clear(); C.clear();
@@ -56,7 +59,8 @@ inline bool gen_gps(Rng& r, int R, int maxpaths, int maxv, Paths64& S, Paths64& 
     for (int i = 0; i < nc; ++i) C.push_back(rand_poly(r, R, (int)r.range(3, maxv)));
     if (r.range(0, 2) == 0) for (auto* ps : {&S, &C}) for (auto& p : *ps) if (r.coin()) subdivide(r, p);
     Paths64 all = S; all.insert(all.end(), C.begin(), C.end());
-    if (gp_native(all, 3)) return true;
+    if (gp_filter_t() == 0) { bool ok = true; for (auto& p : all) for (size_t i = 0; i < p.size(); ++i) if (p[i] == p[(i + 1) % p.size()]) ok = false; if (ok) return true; continue; }
+    if (gp_native(all, gp_filter_t())) return true;
   }
   return false;
 }
